@@ -113,7 +113,7 @@ def correspond(ctx):
     ctx.coverage["disagreements_checked"] = bad
     # how many explored conversions lie inside the class of the certificate-free theorem C02_conversion_checked?
     ctx.coverage["conversions_in_class_of_C02_conversion_checked"] = core.count_true(
-        ctx, "K-platform-class", IMPORTS + ["proofs.ClassCheck"], class_exprs, chunk=max(10, len(class_exprs) // 16 + 1))
+        ctx, "K-platform-class", core.CLASS_IMPORTS, class_exprs, chunk=max(10, len(class_exprs) // 16 + 1))
     ctx.coverage["conversions_total"] = len(class_exprs)
     n_known = 0
     for meta in metas:
